@@ -69,7 +69,12 @@ theorem delivery_exact_generic (env : Env μ) (ret : Str) (fwc : Fwc) (stop eage
     consecutively), `aborts` contains no user line; the wire carries each logged line followed by exactly one
     return and nothing else; `n` is the whole list unless `stop_on_failed` and the `n`-th response failed, and
     with `stop_on_failed` no response before the `n`-th failed.  When the call fails before sending (unknown
-    level, generic mode, navigation error) no user line is written at all. -/
+    level, generic mode, navigation error) no user line is written at all.
+    Reading note: the origin tags are the model's own labels (the caller of `sendInput` supplies them), so the
+    content is the POSITIONAL statement — new log = one block written by `acquire_priv` (`Env.nav` is arbitrary:
+    "navigation" means whatever it writes; C03/C04), then the contiguous user prefix, then the abort step's lines —
+    together with the wire equation.  The channel is total in this model: a timeout / connection loss while a
+    line is being sent is outside this theorem (judged on the implementation only, see design/C13.md). -/
 theorem delivery_exact (env : Env μ) (cfg : Cfg) (fwc : Fwc) (stop : Bool) (priv : Str) (eager : Bool)
     (configs : List Str) (st : St μ) (hne : configs ≠ []) :
     ∃ (navs aborts : List (Entry μ)) (m1 : μ) (n : Nat),
@@ -169,6 +174,58 @@ theorem delivery_exact_commands (env : Env μ) (cfg : Cfg) (fwc : Fwc) (stop eag
       ⟨hd.pos, hd.le, hd.count, hd.inputs, hd.short, hd.clean⟩⟩
     · rw [hd.state]; exact hext.trans (Ext.sendLines ..)
     · simp only [userLines_append, hnavs, userLines_entries, List.nil_append]
+
+/-- **C13 delivery (send_command, a single line)**: navigation to the default level (nothing when already
+    there), then exactly the one line followed by one return; one response whose flag is set exactly when its
+    result contains a marker in effect.  When navigation fails nothing of the command is written. -/
+theorem delivery_exact_command (env : Env μ) (cfg : Cfg) (fwc : Fwc) (command : Str) (st : St μ) :
+    ∃ (navs : List (Entry μ)) (m1 : μ), (∀ e ∈ navs, e.origin = .nav) ∧
+      ((sendCommand env cfg fwc command st).err ≠ none →
+        Ext cfg.ret st (sendCommand env cfg fwc command st).st navs ∧ (sendCommand env cfg fwc command st).resps = []) ∧
+      ((sendCommand env cfg fwc command st).err = none →
+        Ext cfg.ret st (sendCommand env cfg fwc command st).st (navs ++ [⟨.user, m1, command⟩]) ∧
+        (sendCommand env cfg fwc command st).st.writes.flatten =
+          st.writes.flatten ++ wireOf cfg.ret navs ++ (encode command ++ encode cfg.ret) ∧
+        ∃ r, (sendCommand env cfg fwc command st).resps = [r] ∧ r.input = command ∧
+          (r.failed = true ↔ ∃ m ∈ markersInEffect cfg fwc, m <:+: r.result)) := by
+  have hacq : ∃ navs, Ext cfg.ret st (acquireAppropriate env cfg st).1 navs ∧ (∀ e ∈ navs, e.origin = .nav) := by
+    unfold acquireAppropriate
+    split
+    · exact ⟨[], Ext.refl .., by simp⟩
+    · obtain ⟨navs, h1, h2, _⟩ := acquireIfNeeded_spec env cfg cfg.defaultPriv st
+      exact ⟨navs, h1, h2⟩
+  obtain ⟨navs, hext, hnav⟩ := hacq
+  refine ⟨navs, (acquireAppropriate env cfg st).1.mode, hnav, ?_, ?_⟩
+  · intro herr
+    unfold sendCommand at herr ⊢
+    cases he : (acquireAppropriate env cfg st).2 with
+    | some e => simp only [he]; exact ⟨hext, trivial⟩
+    | none => simp [he] at herr
+  · intro hok
+    unfold sendCommand at hok ⊢
+    cases he : (acquireAppropriate env cfg st).2 with
+    | some e => simp [he] at hok
+    | none =>
+      simp only [he]
+      have hone : Ext cfg.ret (acquireAppropriate env cfg st).1
+          (sendCommand1 env cfg.ret .user (netFwc cfg.defaultMarkers fwc) Gen.Send.eagerDefault command
+            (acquireAppropriate env cfg st).1).1 [⟨.user, (acquireAppropriate env cfg st).1.mode, command⟩] :=
+        Ext.sendLines env cfg.ret .user [command] (acquireAppropriate env cfg st).1
+      have hall := hext.trans hone
+      refine ⟨hall, ?_, _, rfl, rfl, ?_⟩
+      · rw [hall.2, wireOf_append]; simp [wireOf, List.append_assoc]
+      · have hflag : (sendCommand1 env cfg.ret .user (netFwc cfg.defaultMarkers fwc) Gen.Send.eagerDefault command
+            (acquireAppropriate env cfg st).1).2.failed = recordFailed (respMarkers (netFwc cfg.defaultMarkers fwc))
+            (sendCommand1 env cfg.ret .user (netFwc cfg.defaultMarkers fwc) Gen.Send.eagerDefault command
+              (acquireAppropriate env cfg st).1).2.result := rfl
+        rw [hflag, recordFailed_iff]
+        cases fwc <;> simp [respMarkers, netFwc, markersInEffect]
+
+/-- `GenericDriver.send_commands_from_file` is `send_commands` of the file's `splitlines()` -/
+theorem generic_from_file_eq (env : Env μ) (ret : Str) (fwc : Fwc) (stop eager : Bool) (text : Str) (st : St μ) :
+    genericSendCommandsFromFile env ret fwc stop eager text st =
+      genericSendCommands env ret .user fwc stop eager (splitlines text) st := by
+  unfold genericSendCommandsFromFile; rw [fileLines_eq_splitlines]
 
 /-- the closed form of `n`: with `stop_on_failed`, lines that leave the device mode alone and a non-eager
     run, the lines sent are literally "the prefix up to and including the first line whose output contains a
@@ -313,7 +370,9 @@ theorem generic_none_never_failed (env : Env μ) (ret : Str) (stop eager : Bool)
   intro x hx
   rw [generic_flags _ _ _ _ _ _ _ _ x hx]; rfl
 
-/-- **MultiResponse.failed ⇔ any element failed**, and the merged response of `send_config` carries the same flag -/
+/-- **MultiResponse.failed ⇔ any element failed**, and the merged response of `send_config` carries the same flag.
+    (An unfolding of the model's definitions `multiFailed` / `mergeResps`; that these ARE `MultiResponse.failed`
+    and `_post_send_config` is established by the differential run, not by this proof.) -/
 theorem multi_failed_iff_any (rs : List Resp) (config : Str) :
     (multiFailed rs = true ↔ ∃ x ∈ rs, x.failed = true) ∧ (mergeResps config rs).failed = multiFailed rs := by
   simp [multiFailed, mergeResps]
@@ -328,7 +387,9 @@ theorem abort_iff_stop_and_failed (env : Env μ) (cfg : Cfg) (fwc : Fwc) (stop :
   · rw [if_neg (by simp [h])]
 
 /-- **send_config = send_configs ∘ splitlines**: same device log, same wire, same belief, same responses; the
-    merged result is the "\n"-join and the merged flag is MultiResponse.failed -/
+    merged result is the "\n"-join and the merged flag is MultiResponse.failed.  (True by unfolding `sendConfig`;
+    the tie to the real `send_config` is the differential run incl. the twin `send_configs(splitlines(s))` run.
+    The non-definitional content is in `send_config_of_joined`, `send_config_lines_clean`, `from_file_eq`.) -/
 theorem send_config_eq_send_configs (env : Env μ) (cfg : Cfg) (fwc : Fwc) (stop : Bool) (priv : Str) (eager : Bool)
     (config : Str) (st : St μ) :
     (sendConfig env cfg fwc stop priv eager config st).1 = sendConfigs env cfg fwc stop priv eager (splitlines config) st ∧
@@ -566,6 +627,72 @@ theorem abort_plan_keeps_level (p : Platform) (a : Bool) (priv : Str)
     · exact absurd rfl h
     · exact junos_abort_keeps_level a _ hl
 
+/-- every generated plan that goes through an inner `send_configs` sends a non-empty list (an empty one would
+    end the abort in the raw IndexError) -/
+def planCmdsNonempty : AbortPlan → Bool
+  | .viaSendConfigs cmds _ _ => !cmds.isEmpty
+  | _ => true
+
+theorem platform_abort_cmds_nonempty : ∀ (p : Platform) (a : Bool), planCmdsNonempty (platformAbort p a) = true := by
+  intro p a; cases p <;> cases a <;> decide
+
+/-- **abort in the failing session, per platform** — `abort_in_failing_session` with every hypothesis about the
+    plan discharged from the GENERATED table: for a driver whose `_abort_config` is the platform's
+    (`cfg.abort = platformAbort p a`, sync or asyncio), at every level of IOS-XE / IOS-XR / EOS / NX-OS and at the
+    three Junos configuration levels, only "the level exists", "the run got as far as sending" and "a response
+    failed" remain. -/
+theorem abort_in_failing_session_platform (p : Platform) (a : Bool) (env : Env μ) (cfg : Cfg) (fwc : Fwc) (priv : Str)
+    (eager : Bool) (configs : List Str) (st : St μ) (hne : configs ≠ [])
+    (hab : cfg.abort = platformAbort p a)
+    (hp : p ≠ .junos ∨ configsTarget priv ∈ junosConfigLevels)
+    (hlevel : hasLevel cfg (configsTarget priv) = true)
+    (hok : (sendConfigsCore env cfg .user fwc true priv eager configs st).err = none)
+    (hfailed : multiFailed (sendConfigsCore env cfg .user fwc true priv eager configs st).resps = true) :
+    ∃ (navs : List (Entry μ)) (m1 : μ) (n : Nat),
+      (sendConfigs env cfg fwc true priv eager configs st).err = none ∧
+      (∀ e ∈ navs, e.origin = .nav) ∧
+      (sendConfigs env cfg fwc true priv eager configs st).st.log = st.log ++ navs ++ entries env .user (configs.take n) m1 ++
+        entries env .abort (abortCmds cfg (configsTarget priv)) (finalMode env (configs.take n) m1) ∧
+      ((∀ l ∈ configs, env.next m1 l = m1) →
+       (∀ c ∈ (abortCmds cfg (configsTarget priv)).dropLast, env.next m1 c = m1) →
+        (∀ e ∈ entries env .user (configs.take n) m1, e.mode = m1) ∧
+        (∀ e ∈ entries env .abort (abortCmds cfg (configsTarget priv)) (finalMode env (configs.take n) m1), e.mode = m1)) := by
+  refine abort_in_failing_session env cfg fwc priv eager configs st hne ?_ hlevel ?_ hok hfailed
+  · rw [hab]; exact abort_plan_keeps_level p a priv hp
+  · intro cmds lvl b h
+    have := platform_abort_cmds_nonempty p a
+    rw [← hab, h] at this
+    intro hnil; subst hnil; simp [planCmdsNonempty] at this
+
+/-- EOS / NX-OS: the abort lines at a level are `["abort"]` exactly when the level's pattern contains the guard
+    marker -/
+theorem eos_nxos_abort_cmds (cfg : Cfg) (a : Bool) (belief : Str)
+    (h : cfg.abort = platformAbort .eos a ∨ cfg.abort = platformAbort .nxos a) :
+    abortCmds cfg belief = if isInfix sessionMarker (levelPattern cfg belief) = true then [sAbort] else [] := by
+  have ht := abort_table a
+  have : cfg.abort = .direct (some sessionMarker) [sAbort] sPrivExec := by
+    rcases h with h | h
+    · rw [h, ht.2.2.2.1]
+    · rw [h, ht.2.2.1]
+  unfold abortCmds; rw [this]; rfl
+
+/-- **EOS / NX-OS abort exactly in registered sessions** (`session_guard` connected to `abortCmds`): a level whose
+    pattern is the session template around any escaped name gets `abort`; a level that carries one of the
+    platform's default patterns gets nothing -/
+theorem eos_nxos_abort_iff_session (cfg : Cfg) (a : Bool) (belief : Str) :
+    (cfg.abort = platformAbort .eos a →
+      (∀ esc, levelPattern cfg belief = Gen.Send.sessionPreEos ++ esc ++ Gen.Send.sessionPostEos → abortCmds cfg belief = [sAbort]) ∧
+      (∀ q ∈ Gen.Send.privsEos, levelPattern cfg belief = q.2 → abortCmds cfg belief = [])) ∧
+    (cfg.abort = platformAbort .nxos a →
+      (∀ esc, levelPattern cfg belief = Gen.Send.sessionPreNxos ++ esc ++ Gen.Send.sessionPostNxos → abortCmds cfg belief = [sAbort]) ∧
+      (∀ q ∈ Gen.Send.privsNxos, levelPattern cfg belief = q.2 → abortCmds cfg belief = [])) := by
+  obtain ⟨g1, g2, g3, g4⟩ := session_guard
+  refine ⟨fun h => ⟨?_, ?_⟩, fun h => ⟨?_, ?_⟩⟩
+  · intro esc hpat; rw [eos_nxos_abort_cmds cfg a belief (Or.inl h), hpat, g1 esc]; rfl
+  · intro q hq hpat; rw [eos_nxos_abort_cmds cfg a belief (Or.inl h), hpat, g3 q hq]; rfl
+  · intro esc hpat; rw [eos_nxos_abort_cmds cfg a belief (Or.inr h), hpat, g2 esc]; rfl
+  · intro q hq hpat; rw [eos_nxos_abort_cmds cfg a belief (Or.inr h), hpat, g4 q hq]; rfl
+
 /-- the plan of the proposed fix (`fixes/C13-junos-abort-level.patch`) keeps all three configuration levels,
     and any level that is not a configuration level falls back to the shared one as before -/
 theorem junos_fixed_plan_keeps_level (cmds : List Str) (b : Str) :
@@ -634,6 +761,11 @@ theorem junos_witness_fixed :
 theorem public_defaults : Gen.Send.stopOnFailedDefault = false ∧ Gen.Send.eagerDefault = false ∧
     Gen.Send.eagerInputDefault = false ∧ Gen.Send.fwcDefaultIsNone = true ∧ Gen.Send.privilegeLevelDefault = [] ∧
     Gen.Send.configsDefaultLevel = "configuration".toList ∧ Gen.Send.returnCharDefault = ['\n'] := by decide
+
+/-- the control-structure shapes the model was written from were found on the tree (the translator raises
+    otherwise; see tools/gen/c13.py `control_shapes`): for / break / else loop, abort step, `_pre_send_configs`
+    order, write-then-return, acquire-first wrappers, splitlines in the file and send_config paths -/
+theorem control_shapes_present : Gen.Send.controlShapes.all id = true ∧ Gen.Send.controlShapes.length = 11 := by decide
 
 /-- with the public defaults the whole list is always delivered -/
 theorem delivery_default_whole_list (env : Env μ) (ret : Str) (fwc : Fwc) (commands : List Str) (st : St μ)
